@@ -24,12 +24,12 @@ CHECKS.update({
    "DESIGN.md 5/C01"),
  "C12": ("streamsmon", "exploration",
    "reference-model monitor: independent ontology oracle + literal-semantics table vs typed accessors (exhaustive pair spaces)",
-   "All 63x101 (type, property) pairs and all 101x(63+11+1) (property, kind) pairs are decoded from generated documents by the real code and inspected by reflection through the typed accessors; expectations come from the independent ontology oracle and a hand-written literal semantics table (RFC 3339 instants, 365-day/30-day durations, numbers, booleans, language maps). Literal kinds are sampled (boundary list + seeded random canonical forms).",
+   "All 63x101 (type, property) pairs and all 101x(63+11+1) (property, kind) pairs are decoded from generated documents by the real code and inspected by reflection through the typed accessors; expectations come from the independent ontology oracle and a hand-written literal semantics table (RFC 3339 instants, 365-day/30-day durations, numbers, booleans, language maps). Literal kinds are sampled (boundary list + seeded random canonical forms). The programmatic API is driven too: SetType / AppendType(vocab.Type) on every property with every type must accept exactly the declared range, and Set<P> on a fresh value must be read back by Get<P> and serialised under the property's name.",
    "Trusted: internal/onto, the literal table in cmd/streamsmon/lits.go. Lexically ambiguous samples are judged by membership in the admissible kinds.",
    "DESIGN.md 5/C12"),
  "C18": ("streamsmon", "exploration",
    "reference-model monitor: every container mutator sequence vs a plain Go slice / slot, compared after each step",
-   "Every non-functional property is driven through all operation sequences (Append, Prepend, Insert, Set, Remove, Swap, element-level Set) on IRI values up to length 3 (quick) / 4-5 (thorough) from an empty and from a deserialised state, plus seeded random sequences to length 40 over every admissible kind; every functional property through all Set/Clear sequences to length 4. After each step Len, At, forward and backward walks, kind flags, typed values and Serialize are compared with the reference slice.",
+   "Every non-functional property is driven through all operation sequences (Append, Prepend, Insert, Set, Remove, Swap, element-level Set) on IRI values up to length 3 (quick) / 4-5 (thorough) from an empty and from a deserialised state, plus seeded random sequences to length 40 over every admissible kind; every functional property through all Set/Clear sequences to length 4. Sequences also use the kind-agnostic <op>Type entry points, SetLanguage/GetLanguage/HasLanguage and sort.Sort (a series of swaps: the content must stay a permutation). After each step Len, At, forward and backward walks, kind flags, typed values and Serialize are compared with the reference slice.",
    "Trusted: reflection-based driver; values are distinct so an element identifies the operation that stored it.",
    "DESIGN.md 5/C18"),
 })
@@ -66,12 +66,12 @@ CHECKS.update({
    "DESIGN.md 5/C07"),
  "C09": ("pubmon", "fault_enumeration",
    "online held-set automaton over Database.Lock/Unlock per request, under enumeration of single (thorough: paired) faults",
-   "A corpus covering every default side-effect path of both protocols is run fault-free and once per fallible call (Database, Transport, NewTransport, protocol and callback invocations) made to fail; a per-request automaton checks balance, no re-entry, no unlock of an unacquired lock, no Database access without a lock and no leak at return.",
+   "A corpus covering every default side-effect path of both protocols is run fault-free and once per fallible call (Database, Transport, NewTransport, protocol and callback invocations) made to fail; a per-request automaton checks balance, no re-entry, no unlock of an unacquired lock, no Database access without a lock and no leak at return. The same automaton also judges scenarios drawn from the generators of C02 C03 C04 C06 C16 C17 (a subset under every single fault), and requests whose body reader or ResponseWriter fails.",
    "Trusted: internal/sim fault injector and request ids carried in the context. Known findings (re-entrant locking in InboxForwarding) are listed in known_findings.json.",
    "DESIGN.md 5/C09"),
  "C10": ("pubmon", "fault_enumeration",
    "counting ResponseWriter + status model over C07's product, C09's fault variants and the id / required-member families",
-   "Every request of C07's product, every single-fault variant of the corpus and the 'usable id' and 'required object/target' families are executed with a counting ResponseWriter; the (handled, error, writes) triple must be one of the three legal outcomes and the status must be the documented one (405/400/403/200/410/201+Location).",
+   "Every request of C07's product, every single-fault variant of the corpus and the 'usable id' and 'required object/target' families are executed with a counting ResponseWriter; the (handled, error, writes) triple must be one of the three legal outcomes and the status must be the documented one (405/400/403/200/410/201+Location). The outcome rule is also applied to scenarios drawn from the other checks' generators and to requests whose body cannot be read.",
    "Trusted: internal/sim; a 401 written by the simulated application counts as the application's.",
    "DESIGN.md 5/C10"),
  "C16": ("pubmon", "exploration",
@@ -81,7 +81,7 @@ CHECKS.update({
    "DESIGN.md 5/C16"),
  "C17": ("pubmon", "exploration",
    "reference-model monitor + history check: forwarding presence/recipients/payload and exactly-once Create over repeated deliveries",
-   "Random inbox activities with mixed addressing and reply chains (embedded and dereferenced, depth 0..5, owned id at a random level) are delivered 1..3 times to one or two inboxes under depth limits 1..4 and three filters; the forwarding BatchDeliver is compared with a model of the three conditions, and the activity must be created exactly once over the history.",
+   "Random inbox activities with mixed addressing (including addressees without an id) and reply chains (embedded and dereferenced, with anonymous embedded siblings, depth 0..5, owned id at a random level) are delivered 1..3 times to one or two inboxes under depth limits 1..4 and three filters; the forwarding BatchDeliver is compared with a model of the three conditions, and the activity must be created exactly once over the history.",
    "Trusted: internal/sim; recipients judged as the set of member ids handed to the transport.",
    "DESIGN.md 5/C17"),
  "C20": ("pubmon", "exploration",
@@ -93,7 +93,7 @@ CHECKS.update({
 CHECKS.update({
  "C08": ("pubmon", "exploration",
    "controlled scheduler at the application-interface boundary (bounded-preemption DFS + seeded random schedules), conservation / duplicate / deadlock oracles, porcupine linearizability check of request-level histories, real-thread stress under the Go race detector",
-   "Eight workloads of 2-3 concurrent requests run under a scheduler that owns the lock table and decides at every Database/Transport/protocol/callback call who continues: all schedules with at most 1 (thorough: 2; three-request variants 0/1) preemptions plus hundreds of random ones per workload. Every execution is judged for deadlock (no runnable request), conservation against the sequential run, once-only handling of duplicates, lock discipline and, with porcupine, linearizability of the add/read history against a set model. The same workloads then run on real goroutines with jitter under -race.",
+   "Sixteen workloads of 2-3 concurrent requests (every collection the statement names, duplicates, mixed reads, three cross-protocol pairs) run under a scheduler that owns the lock table and decides at every Database/Transport/protocol/callback call who continues: all schedules with at most 1 (thorough: 2; three-request variants 0/1) preemptions plus hundreds of random ones per workload. Every execution is judged for deadlock (no runnable request), conservation against the sequential run, once-only handling of duplicates, lock discipline and, with porcupine, linearizability of the add/read history against a set model. The same workloads then run on real goroutines with jitter under -race; there 'never returns' is decided on the simulator's lock table (a stable wait-for cycle or a leaked lock), the wall clock only bounds a slow run and its firing is inconclusive.",
    "Trusted: internal/sched (one request runs at a time; locks granted by the scheduler), internal/sim. Bounded preemptions and request count. The known opposite-order deadlock in InboxForwarding is a listed finding.",
    "DESIGN.md 5/C08"),
  "C11": ("c11drv", "exploration",
@@ -103,14 +103,14 @@ CHECKS.update({
    "DESIGN.md 5/C11"),
  "C19": ("tportmon", "exploration",
    "trace specification over captured requests and signer calls + Go race detector (engine always built -race), real httpsig signers verified on what the client received",
-   "The bundled HttpSigTransport is driven with a recording HttpClient and recording signers: every status 100..599 and a transport error for Dereference and Deliver, all combinations of nine outcome classes for batches of 1..3, seeded random batches up to 64 recipients with duplicates, eight concurrent batches and dereferences on one transport value; headers, key, key id, body identity, header stability after signing, attempt multiplicity, error presence and naming, signer mutual exclusion are checked; RSA-SHA256 and HMAC-SHA256 signatures over five header lists must verify; race reports fail the run.",
+   "The bundled HttpSigTransport is driven with a recording HttpClient and recording signers: every status 100..599 and a transport error for Dereference and Deliver, all combinations of eleven per-recipient outcome classes (statuses, client error, signer refusal, unbuildable URL) for batches of 1..3, every batch size 1..40 and 64 with all recipients failing, seeded random batches up to 64 recipients with duplicates, eight concurrent batches and dereferences on one transport value; headers, key, key id, body identity, header stability after signing, attempt multiplicity, error presence and naming, signer mutual exclusion are checked; RSA-SHA256 and HMAC-SHA256 signatures over five header lists must verify; race reports fail the run.",
    "Trusted: the recording client/signers; the Digest header produced by the pinned httpsig is not judged. Real-signer phases run in a child process so a crash is attributed.",
    "DESIGN.md 5/C19"),
 })
 CHECKS.update({
  "C15": ("gencheck", "exploration",
    "differential monitor over repeated fresh-process generator runs + reference-model monitors (C13, C12, C01) re-run against generated extension trees",
-   "astool is built from the working tree and run in fresh processes on the shipped vocabularies (32 runs quick, 64 thorough): all outputs must be byte-identical and equal, file by file and comment-free syntax tree by syntax tree, to the shipped streams package. Seeded random extension vocabularies (1 quick, 10 thorough) are generated, compiled, and judged by the streamsmon engine built against that tree with the ontology oracle extended by the extension file.",
+   "astool is built from the working tree and run in fresh processes on the shipped vocabularies (32 runs quick, 64 thorough): all outputs must be byte-identical and equal, file by file and comment-free syntax tree by syntax tree, to the shipped streams package. Seeded random extension vocabularies (1 quick, 10 thorough; types with several parents across vocabularies, one-sided disjointWith, a typeless kind, natural-language / functional / withheld properties) are generated, compiled, and judged by the streamsmon engine built against that tree with the ontology oracle extended by the extension file.",
    "Trusted: go/parser and go/printer for the syntax-tree comparison; the extension generator stays within constructs demonstrated by the shipped extension vocabularies.",
    "DESIGN.md 5/C15"),
 })
